@@ -119,11 +119,12 @@ func provesGEPath(facts []Fact, pa string, aval ssa.Value, b ssa.Value, slack in
 // CheckBounds examines every slice expression and index in fn whose bounds are
 // not constants and returns the sites with their undischarged obligations.
 // Rules:
-//   underflow: a bound/index of the form len(X) - K needs len(X) >= K
-//   order:     s[lo:hi] with variable lo and hi needs hi >= lo
-//   upper:     s[:hi] / s[lo:hi] with hi not derived from len(s) needs hi <= len(s) or cap(s)
-//   index:     s[i] with i = len(X)-K handled by underflow; other variable
-//              indexes are left to the callers' own rules
+//
+//	underflow: a bound/index of the form len(X) - K needs len(X) >= K
+//	order:     s[lo:hi] with variable lo and hi needs hi >= lo
+//	upper:     s[:hi] / s[lo:hi] with hi not derived from len(s) needs hi <= len(s) or cap(s)
+//	index:     s[i] with i = len(X)-K handled by underflow; other variable
+//	           indexes are left to the callers' own rules
 func CheckBounds(fn *ssa.Function, interesting func(slice ssa.Value) bool) []BoundsSite {
 	var out []BoundsSite
 	for _, b := range fn.Blocks {
